@@ -15,15 +15,16 @@ CONFIG = {
     ],
     "assumptions": [
         "model/BclFmt.v is the hand-written model of fmt.go and description.go as they are after the fix: commits listed in KNOWN_FINDINGS.txt (tokenSource with the lexer's own escapes, Fields-based re-flow, bare '|' for an empty description), on top of the C11 models; tied to the code by byte-exact comparison of Fmt output (or its rejection) on every generated file, and of tokenSource / reformatDescription on random literals",
-        "the full statement (C09_full_statement) is a Definition and is NOT proved; its clauses 'output accepted' and 'same document' are proved for all inputs (C09_accepted_same_document), over the walker's flat fragment list with nesting as the sequence of opening headers and closing braces; 'idempotent' is decided on each run's inputs by the direct oracle only (proved only for the description re-flow)",
+        "the full statement C09_full_statement is proved (C09_full) for the model, at rune level: input and output are rune lists ([]rune of the Go strings); the byte level adds only that decoding the UTF-8 encoding of decoded runes gives the runes back (modelled, not verified)",
+        "'same document' is over the walker's flat fragment list (comments included; nesting as the sequence of opening headers and closing braces, on which alone fragmentsToFile's diagnostics depend — to_file_ok_iff); values are compared by token type and literal, so x = a.b and x = \"a.b\" are the same value exactly as popValue makes them",
     ],
     "mult_search": 4,
     "refuted": [],
-    "partial": ["C09_full_statement is a Definition only; proved for all inputs: every clause except idempotence (C09_accepted_same_document = fmt succeeds, output accepted by the parser, output's fragments have the same documents; also C09_output_accepted, C09_same_document). NOT proved: fmt_runes out = Ok out (formatting twice changes nothing) — only its description part (C09_reflow_fixed_point); the blank lines depend on token positions in the output, which no theorem computes. Component theorems: totality, tokenSource/lexer inverse pairs, C09_token_roundtrip, C09_sequence_relex, C09_line_relex, C09_fragments_renderable, C09_walk_back, C09_reflow_same_paragraphs"],
+    "partial": [],
 }
 
 MANIFEST = {
-    "text": "Theorems over a Gallina model of the formatter (tokenSource, fmter, reformatDescription, Fmt) on top of the proved lexer/walker models, for all inputs (rune lists): Fmt never panics or exhausts fuel; for every file the parser accepts, Fmt succeeds, the parser accepts the output, and the output's fragments (read again by lexer and walker) have the same documents as the input's: block types, tags with marks, qualifiers, nesting (sequence of opening headers / closing braces), assignment keys, operators and literal values (type and literal of every token), comments, and descriptions with the same words and paragraph breaks (C09_accepted_same_document). Built from: every token the lexer emits is read back from tokenSource's text when followed by text that cannot extend it; every line the formatter writes lexes to the fragment's canonical tokens; the whole output lexes to the canonical stream (description blocks incl. the bare | line, blank lines, indentation); adjacent description blocks are separated by an empty source line; the walker rebuilds the fragments from the canonical stream; the re-flow keeps words and paragraph breaks and is a fixed point. NOT proved: idempotence of the whole formatter (Fmt(Fmt x) = Fmt x) — stated in C09_full_statement, evaluated by the direct oracle on every generated file; Fmt's output is compared byte for byte with the model's.",
-    "note": "PARTIAL: C09_full_statement is a Definition, not a theorem. Proved for all inputs: formatter succeeds on accepted files, output accepted, same document (C09_accepted_same_document). Not proved: formatting twice changes nothing (only the description re-flow part, C09_reflow_fixed_point); oracle-checked per run. 'Same document' is over the walker's fragment list (comments included, nesting as open/close sequence); values compare token type and literal, so x = a.b and x = \"a.b\" are the same value as in the parser. The proofs are for the code after fixes ab323ff (tokenSource used %q and did not re-double '/'), 4c24869 (re-flow not a fixed point), 266986b (empty description printed as an empty line) and e44da54 (spurious blank line after a brace-less header with a trailing comment). Trusted: Coq kernel, translator, harness; Go string functions modelled.",
+    "text": "C09_full_statement is proved (C09_full) over a Gallina model of the formatter (tokenSource, fmter, reformatDescription, Fmt) on top of the proved lexer/walker models, for all rune lists: for every file the parser accepts, Fmt succeeds, the parser accepts the output, the output's fragments (read again by lexer and walker) have the same documents as the input's — block types, tags with marks, qualifiers, nesting (sequence of opening headers / closing braces), assignment keys, operators and literal values (type and literal of every token), comments, descriptions with the same words and paragraph breaks — and formatting the output again returns it unchanged (C09_idempotent holds for every input Fmt accepts). Built from: every token the lexer emits is read back from tokenSource's text when followed by text that cannot extend it; every line the formatter writes lexes to the fragment's canonical tokens; the whole output lexes to the canonical stream (description blocks incl. the bare | line, blank lines, indentation); adjacent description blocks are separated by an empty source line; the walker rebuilds the fragments from the canonical stream; the text of a line is a function of the document; the re-flow keeps words and paragraph breaks and is a fixed point; exact line numbers of the tokens and fragments of the output reproduce the blank-line decisions. Fmt never panics or exhausts fuel. Fmt's output is compared byte for byte with the model's on every generated file, and the direct oracle re-parses, compares documents and formats twice.",
+    "note": "Full statement proved for the model (C09_full), rune level. 'Same document' is over the walker's fragment list (comments included, nesting as open/close sequence); values compare token type and literal, so x = a.b and x = \"a.b\" are the same value as in the parser. The proofs are for the code after fixes ab323ff (tokenSource used %q and did not re-double '/'), 4c24869 (re-flow not a fixed point), 266986b (empty description printed as an empty line), e44da54 (spurious blank line after a brace-less header with a trailing comment) and e710ab8 (nesting bound). Trusted: Coq kernel, translator, harness, the hand-written model tied by byte-exact correspondence; Go string functions modelled.",
     "technique": "Rocq/Coq proof (inverse-pair lemmas tokenSource/lexer by induction on the literal; line- and file-level relex by explicit construction of the NextToken run; walker run constructed from the canonical stream; lexer/walker position invariants for the description gap; word-level machines for the re-flow) + byte-exact in-Coq differential correspondence of Fmt, tokenSource and reformatDescription + direct oracle (re-parse, position-free document comparison, format twice)",
 }
